@@ -363,6 +363,15 @@ fn mutate_sig(sig: &[u8], m: &Value) -> Vec<u8> {
                 *x = c;
             }
         }
+        // longer / shorter than a signature AND not containing the correct one
+        "flipappend" => {
+            s[0] = if s[0] == b'0' { b'1' } else { b'0' };
+            s.extend_from_slice(&bytes_of(m.get("b").unwrap_or(&Value::Null)));
+        }
+        "fliptrunc" => {
+            s[0] = if s[0] == b'0' { b'1' } else { b'0' };
+            s.truncate(get_i64(m, "n") as usize);
+        }
         _ => {}
     }
     s
@@ -718,6 +727,15 @@ fn stage_ok(name: &str, extra: Value) -> Value {
     Value::Object(m)
 }
 
+/// Accessors of the stage objects are code under test as well: a panic anywhere in the staged run is an outcome
+/// (a stage event with res = "panic"), never a crash of the harness.
+fn staged_guarded(f: impl FnOnce(&mut Oracle) -> Vec<Value>, oracle: &mut Oracle) -> Vec<Value> {
+    match guarded(|| f(oracle)) {
+        Ok(v) => v,
+        Err(p) => vec![stage_err("StageCanon", Err(&p), json!({"cpath": [], "cquery": [], "bodyhash": []}))],
+    }
+}
+
 /// The same request stage by stage through the `unstable` API, exposing each stage's state.
 fn run_staged<S: SignedHeaderRequirements>(
     req: http::Request<Bytes>,
@@ -846,6 +864,33 @@ fn run_staged<S: SignedHeaderRequirements>(
             evs.push(stage_ok("StageSts", json!({"sts": jbytes(&sts)})));
         }
     }
+    // The same authenticator validated LATER (one hour on, same tolerance) through the unstable route: every call
+    // re-checks freshness against the clock it is given, so this must be refused as expired and the provider must
+    // not be consulted - whatever an earlier prevalidate() on this object concluded.
+    let events: Events = Arc::new(Mutex::new(Vec::new()));
+    let mut late_script = script.clone();
+    late_script.ready_in = 0;
+    late_script.pend_in = 0;
+    let mut provider = Provider {
+        script: late_script,
+        ready_left: 0,
+        events: events.clone(),
+    };
+    let late = guarded(|| block_on_n(auth.validate_signature(&region, &service, now + Duration::hours(1), Duration::minutes(15), &mut provider), 1000));
+    let calls = events.lock().unwrap().len();
+    let mut ev = match late {
+        Err(p) => stage_err("StageLate", Err(&p), json!({})),
+        Ok(None) => {
+            let mut m = Map::new();
+            m.insert("ev".into(), json!("StageLate"));
+            blank_result(&mut m, "stuck", "future never completed");
+            Value::Object(m)
+        }
+        Ok(Some(Err(e))) => stage_err("StageLate", Ok(&e), json!({})),
+        Ok(Some(Ok(_))) => stage_ok("StageLate", json!({})),
+    };
+    ev["provider_events"] = json!(calls);
+    evs.push(ev);
     evs
 }
 
@@ -884,11 +929,11 @@ pub fn run(case: &Value) -> Vec<Value> {
     let (end, staged) = match &reqs {
         Reqs::Slice(a, i, p) => {
             let r = SliceSignedHeaderRequirements::new(a, i, p);
-            let st = run_staged(req2, &cfg, &script, &r, &mut oracle);
+            let st = staged_guarded(|o| run_staged(req2, &cfg, &script, &r, o), &mut oracle);
             (run_e2e(req, &cfg, &script, &r, events.clone()), st)
         }
         Reqs::Vecr(v) => {
-            let st = run_staged(req2, &cfg, &script, v, &mut oracle);
+            let st = staged_guarded(|o| run_staged(req2, &cfg, &script, v, o), &mut oracle);
             (run_e2e(req, &cfg, &script, v, events.clone()), st)
         }
     };
